@@ -81,8 +81,18 @@ class C07(Check):
                     p = draw_pair(rng, prev)
                     prev.append(tuple(p))
                     steps.append({"op": "cer_in_open", "ids": p})
-                elif x < 0.85:
+                elif x < 0.80:
                     steps.append({"op": "app_in", "n": rng.choice([1, 2, 4])})
+                elif x < 0.90:
+                    # a send backlog larger than one batch while base requests arrive back to back: the
+                    # answer to the first must not be touched by the second while it still waits
+                    ids = []
+                    for _ in range(rng.choice([2, 3])):
+                        p = draw_pair(rng, prev)
+                        prev.append(tuple(p))
+                        ids.append(p)
+                    steps.append({"op": "backlog_dwr", "n": rng.choice([6, 10, 16]), "pad": rng.choice([200, 700, 1500]),
+                                  "ids": ids, "lead": rng.choice([0.0, 0.0005, 0.003])})
                 else:
                     steps.append({"op": "node_sends", "n": rng.choice([1, 3])})
                 steps[-1]["gap"] = rng.choice([0.0, 0.001, 0.02, 0.2])
@@ -92,6 +102,8 @@ class C07(Check):
             conns.append({"cer": cer, "steps": steps, "end": end, "dpr": dpr})
         knobs = draw_knobs(rng)
         knobs["SLEEP_TIMER"] = rng.choice([0.1, 0.3])
+        if any(st["op"] == "backlog_dwr" for cn in conns for st in cn["steps"]):
+            knobs["SEND_BUFFER_MAXIMUM_SIZE"] = rng.choice([1800, 2400, 4096])
         return {"mode": mode, "conns": conns, "sched": draw_sched(rng), "knobs": knobs,
                 "net": {"max_latency": rng.choice([0.0005, 0.003]), "p_fragment": rng.choice([0.0, 0.3]),
                         "p_partial_write": rng.choice([0.0, 0.3])},
@@ -110,7 +122,7 @@ class C07(Check):
                 del c["conns"][i]["steps"][j]
                 yield c
             for j, st in enumerate(cn["steps"]):
-                if st["op"] == "dwr_burst" and len(st["ids"]) > 1:
+                if st["op"] in ("dwr_burst", "backlog_dwr") and len(st["ids"]) > 1:
                     c = copy.deepcopy(scn)
                     c["conns"][i]["steps"][j]["ids"].pop()
                     yield c
@@ -196,6 +208,21 @@ class C07(Check):
                             hb_counter[0] += 1
                             w.peer.send(C.app_request(APP_ID, 316, hb_counter[0], hb_counter[0], "p;7;%d" % hb_counter[0],
                                                       PEER_HOST, PEER_REALM, NODE_REALM))
+                    elif op == "backlog_dwr":
+                        from bromelia.base import DiameterAVP
+
+                        def flood(n=st["n"], pad=st["pad"]):
+                            msgs = [DiameterRequest(application_id=APP_ID, command_code=316, avps=[
+                                SessionIdAVP(("n;4;%d" % i).encode()), OriginHostAVP(NODE_HOST),
+                                OriginRealmAVP(NODE_REALM), DestinationRealmAVP(PEER_REALM),
+                                DiameterAVP(code=99998, data=bytes(pad))]) for i in range(n)]
+                            w.node.send_messages(msgs)
+                        w.call("flooder", flood)
+                        if st["lead"]:
+                            sim.sleep(st["lead"])
+                        if len(st["ids"]) > 1:
+                            stats["coalesced_base"] += 1
+                        w.peer.send_stream([C.dwr(PEER_HOST, PEER_REALM, hbh=h, e2e=e) for (h, e) in st["ids"]])
                     elif op == "node_sends":
                         def submit(n=st["n"]):
                             for i in range(n):
@@ -204,7 +231,8 @@ class C07(Check):
                                     OriginRealmAVP(NODE_REALM), DestinationRealmAVP(PEER_REALM)]))
                         w.call("submitter", submit)
                 # let the node work through what was sent
-                nreq = sum(len(s["ids"]) if s["op"] == "dwr_burst" else 1 for s in cn["steps"])
+                nreq = sum(len(s["ids"]) if s["op"] in ("dwr_burst", "backlog_dwr") else 1 for s in cn["steps"]) + \
+                    sum(s["n"] for s in cn["steps"] if s["op"] == "backlog_dwr")
                 sim.sleep(0.05 + 3 * tick * (nreq + 4))
                 if cn["end"] == "peer_dpr":
                     w.peer.send(C.dpr(PEER_HOST, PEER_REALM, hbh=cn["dpr"][0], e2e=cn["dpr"][1]))
